@@ -188,6 +188,12 @@ func genLocScenario(r *rand.Rand, base string, full bool) *locScenario {
 			badRoots = []string{up + "../outside", ".", "..", "nonexistent", up + "../out", "dep.yaml"}
 		} else {
 			badRoots = []string{".", "nonexistent"}
+			// a root OUTSIDE the scope referenced from a nested root (the scope binds every loader, not only the target's)
+			if dir == lib {
+				badRoots = append(badRoots, "../../outside", "../../outside")
+			} else {
+				badRoots = append(badRoots, "../"+up+"../outside", "../"+up+"../outside")
+			}
 			if dir == lib && r.Intn(3) == 0 {
 				roots = []string{"../" + appRel + "/inner"}
 			}
